@@ -118,6 +118,7 @@ def run_plan(pid, tier, plan, prefixes, need_witnesses=(), crash_is_violation=Fa
             all_complete = False
             continue
         kw = dict(spec)
+        kw.pop('merge_check', None)
         label = kw.pop('label')
         s = psearch.Search(run, kw.pop('services'), kw.pop('rules'), kw.pop('timeout'), kw.pop('ids'), kw.pop('alphabet'), label=label, **kw)
         t0 = time.time()
@@ -138,6 +139,13 @@ def run_plan(pid, tier, plan, prefixes, need_witnesses=(), crash_is_violation=Fa
                 run.violation(pid + '.crash', msg, s.replay_obj(sid, ev, cev, {'clause': pid + '.crash', 'search': label, 'stderr': cr['err']}), dedup=label + '|crash|' + ev[0])
             else:
                 other_tags['crash'] = other_tags.get('crash', 0) + 1
+        # continuations of merged histories judged by the observer (state outside the dump cannot hide behind a merge)
+        nmerge = 0
+        if spec.get('merge_check', True) and len(s.ids) == 1 and not run.out_of_time(60):
+            nmerge, _diff = s.merge_check(limit=150 if tier == 'quick' else 1500)
+            for tag, text, rep in s.merge_observed:
+                if any(tag.startswith(p) for p in prefixes):
+                    run.violation(tag, '[%s] %s' % (label, text), rep, dedup=label + '|merge|' + tag)
         nconf = 0
         if conformance_limit and not run.out_of_time(20):
             nconf = conformance(s, conformance_limit, run)
@@ -147,7 +155,7 @@ def run_plan(pid, tier, plan, prefixes, need_witnesses=(), crash_is_violation=Fa
         per.append({'search': label, 'states': len(s.states), 'transitions': s.transitions, 'fixpoint': s.complete, 'levels': s.levels_done,
                     'depth_histogram': s.depth_hist, 'disabled_events': s.disabled, 'conformance_traces': nconf,
                     'services': s.services, 'timeout': s.timeout, 'ids': s.ids, 'wall_s': round(time.time() - t0, 1),
-                    'distinct_output_shapes_per_event_kind': {k: len(v) for k, v in s.out_kinds.items()}})
+                    'distinct_output_shapes_per_event_kind': {k: len(v) for k, v in s.out_kinds.items()}, 'merged_history_pairs_continued': nmerge})
         # samples: a short and a long explored history with outputs
         if s.states:
             for sid in (min(len(s.states) - 1, 3), len(s.states) - 1):
@@ -232,6 +240,17 @@ def serial_sweep(run, prefixes, thorough=False):
 def replay(obj):
     r = obj['replay']
     b = build.build()
+    if r.get('engine') == 'E1-merge':
+        with e1.Server(r['conf'], builddir=b) as srv:
+            ser = r['serial_b']
+            ctx = {'cur': {r['id']: ser + 1}, 'old': {}, 'serial': ser}
+            conc = [proto.render(tuple(e), ctx) for e in r['suffix']]
+            hist = [tuple(h) for h in r['hist_b']]
+            res, status, err, ex = srv.trace(hist + conc, 0)
+            for c, x in zip(hist + conc, res):
+                print('%-60r -> %r' % (c[1] if len(c) > 1 else c[0], x.out))
+        print(obj['what'])
+        return 1
     conf = e1.conf_text(os.path.join(b, 'mods-wrapped'), services=[tuple(x) for x in r['services']], timeout=r['timeout'],
                         rules=[(n, kv) for n, kv in r['rules']])
     evs = [tuple(e) for e in r['events']]
